@@ -22,7 +22,10 @@ TEXTS = {
              "justifies suppression against the previous report), a crew booted from the store has the same machines (C15_boot_equiv), "
              "the same store keeps tracking it and it produces the same outputs on every later history (C15_restart_unobservable - since "
              "the repair of D56 without any hypothesis on the captain: C15_captain_never_inert is an invariant of every reachable crew; "
-             "for crews that are not reachable the hypothesis is necessary, C15_any_crew_needs_captain). On "
+             "for crews that are not reachable the hypothesis is necessary, C15_any_crew_needs_captain). All of it holds for every "
+             "predicate saying which sources resolve to a specification; a source that resolves to nothing leaves the machine without "
+             "specification while report and store carry the source as given, and the booted crew has the same inert machine "
+             "(C15_unresolvable_source_inert). On "
              "every run the real Stdio consumer folds the real reports into its state file, a second crew is booted from the file at "
              "every message boundary and runs the rest of the history; store, booted crew and outputs are compared with the live crew.",
         note=SIO_NOTE + " Partial: restart equivalence is proved under one shared schedule; across schedules (Go's random map order) it "
